@@ -189,7 +189,7 @@ func c14Specs(thorough bool) []string {
 func TestC14(t *testing.T) {
 	r := NewReporter(t)
 	defer r.Done()
-	r.Rule("spec strings enumerated from the documented grammar and near misses; a spec is distinct by its text; probes per accepted spec: borders +-1, network, broadcast, midpoint, far outside, in 16-byte and (for mapped v4) 4-byte form; thorough: every address of every v4 block /20../32 plus a margin")
+	r.Rule("spec strings enumerated from the documented grammar and near misses; a spec is distinct by its text; every spec also decoded over a value that already holds one of 4 earlier ranges; probes per accepted spec: borders +-1, network, broadcast, midpoint, far outside, in 16-byte and (for mapped v4) 4-byte form; thorough: every address of every v4 block /20../32 plus a margin")
 	specs := c14Specs(r.Thorough())
 	one := big.NewInt(1)
 	for i, s := range specs {
@@ -211,6 +211,42 @@ func TestC14(t *testing.T) {
 		uerr := um.UnmarshalText([]byte(s))
 		if (uerr == nil) != refOK {
 			r.Violation("C14:unmarshal-accept", sprintf("spec %q: UnmarshalText err=%v, reference accept=%v", s, uerr, refOK), map[string]any{"spec": s})
+		}
+		// the same value decoded twice (an option given twice, a reloaded configuration): UnmarshalText over a value
+		// that already holds a range must end exactly like a fresh decode - accepted and denoting the new set, or rejected
+		for _, prior := range []string{"10.0.0.0/8", "192.168.1.10", "2001:db8::/64", "1.2.3.4-1.2.3.9"} {
+			var v iprange.IPRange
+			if err := v.UnmarshalText([]byte(prior)); err != nil {
+				r.Violation("C14:unmarshal-accept", sprintf("spec %q rejected: %v", prior, err), map[string]any{"spec": prior})
+				break
+			}
+			err2 := v.UnmarshalText([]byte(s))
+			r.Transition(1)
+			if (err2 == nil) != refOK {
+				r.Outcome("reuse-accept-mismatch")
+				r.Violation("C14:unmarshal-over-previous:accept", sprintf("UnmarshalText(%q) on a value that already holds %q: err=%v, reference accept=%v", s, prior, err2, refOK), map[string]any{"spec": s, "previous": prior})
+				break
+			}
+			if !refOK {
+				continue
+			}
+			bad := false
+			pref, _ := refParse(prior)
+			for _, x := range []*big.Int{ref.lo, ref.hi, new(big.Int).Sub(ref.lo, one), new(big.Int).Add(ref.hi, one), pref.lo, pref.hi, new(big.Int).Rsh(new(big.Int).Add(pref.lo, pref.hi), 1)} {
+				if x.Sign() < 0 || x.Cmp(max128) > 0 {
+					continue
+				}
+				for _, ip := range ipForms(x) {
+					if v.Contains(ip) != ref.contains(x) && !bad {
+						bad = true
+						r.Outcome("reuse-contains-mismatch")
+						r.Violation("C14:unmarshal-over-previous:contains", sprintf("UnmarshalText(%q) on a value that already holds %q: probe %s reference=%v Contains=%v", s, prior, ip, ref.contains(x), v.Contains(ip)), map[string]any{"spec": s, "previous": prior, "probe": ip.String()})
+					}
+				}
+			}
+			if bad {
+				break
+			}
 		}
 		if !refOK {
 			r.Outcome("rejected")
